@@ -88,6 +88,11 @@ CLAIMS["C16"] = ("taint rule (loaded block content never assigned as node), must
  "Trusted: go/ssa + go/types. Not covered: equality and order of untouched entries as values, input immutability (C11), sequences of transforms.",
  "DESIGN.md section 3, C16")
 
+CLAIMS["C08"] = ("sibling agreement across type switches (strategy x method matrix derived from the representation node's own Kind()), must-pass-through (finish hook, pointer wrapping), dispatch-table reachability for the generators",
+ "Structural necessary conditions of 'views obey the strategy': every representation strategy whose representation kind differs from the type-level kind (or is dynamic) has an explicit arm in Length and in the readers/writers of that kind on bindnode's representation node and assembler; representation-level assigns always reach the finish hook or delegate; inferGoType wraps every optional/nullable position in a pointer unconditionally; every exported generator constructor is dispatched from Generate and dispatch defaults panic. Not that each arm computes the right view.",
+ "Trusted: go/ssa + go/types. Not covered: correctness of each arm's view, build-route equality and codec round trips as values, generated code (templates are strings).",
+ "DESIGN.md section 3, C08")
+
 NOT_APPLICABLE = {
  "C13": "concerns the output of running the code generator on arbitrary schemas and the run-time equivalence of two engines; the generator's logic lives in text/template strings, so no typed program exists to analyse before execution (DESIGN.md section 4)",
 }
